@@ -259,10 +259,16 @@ PROCESS_LEAKS = []
 
 def process_state():
     """Process-wide settings that library calls have no business changing: numpy's floating-point error mode and print options, the
-    interpreter's warning filters (count), the library loggers' levels."""
+    interpreter's warning filters (count), the library loggers' levels - and what the pose classes hand out as the identity element."""
     import logging
 
-    return {"np.geterr": dict(np.geterr()), "np.printoptions": {k: (v if not callable(v) else "callable") for k, v in np.get_printoptions().items()},
+    ident = {}
+    for kk, cls in CLS.items():
+        try:
+            ident[kk] = fl(cls.identity())
+        except Exception as ex:  # noqa: BLE001
+            ident[kk] = type(ex).__name__
+    return {"identity()": ident, "np.geterr": dict(np.geterr()), "np.printoptions": {k: (v if not callable(v) else "callable") for k, v in np.get_printoptions().items()},
             "warnings.filters": len(warnings.filters), "logging:graphslam": logging.getLogger("graphslam").level,
             "logging:graphslam.graph": logging.getLogger("graphslam.graph").level}
 
